@@ -78,6 +78,12 @@ func labelSels() []*kv.LabelSel {
 		{ME: []kv.LSReq{{Key: "l", Op: "In", Vals: []string{"1"}}}},
 		{ME: []kv.LSReq{{Key: "l", Op: "In", Vals: []string{"2"}}}},
 		{ME: []kv.LSReq{{Key: "l", Op: "NotIn", Vals: []string{"1", "2"}}}},
+		// several requirements on one key: all of them count
+		{ML: map[string]string{"l": "1"}, ME: []kv.LSReq{{Key: "l", Op: "NotIn", Vals: []string{"1"}}}},
+		{ML: map[string]string{"l": "1"}, ME: []kv.LSReq{{Key: "l", Op: "In", Vals: []string{"2"}}}},
+		{ML: map[string]string{"l": "1"}, ME: []kv.LSReq{{Key: "l", Op: "DoesNotExist"}}},
+		{ME: []kv.LSReq{{Key: "l", Op: "In", Vals: []string{"1"}}, {Key: "l", Op: "NotIn", Vals: []string{"1"}}}},
+		{ME: []kv.LSReq{{Key: "l", Op: "In", Vals: []string{"1"}}, {Key: "l", Op: "Exists"}, {Key: "t", Op: "In", Vals: []string{"q"}}}},
 		{ME: []kv.LSReq{{Key: "l", Op: "In", Vals: []string{"1", "2", "q"}}}},
 		{ME: []kv.LSReq{{Key: "t", Op: "Exists"}}},
 		{ME: []kv.LSReq{{Key: "t", Op: "DoesNotExist"}}},
